@@ -947,4 +947,14 @@ example : Arena.checkedInsertAfter Arena.sampleF ⟨1, 0⟩ ⟨3, 0⟩ = .done A
     Arena.detach Arena.sampleF ⟨3, 0⟩ = .done Arena.sampleF () ∧
     Arena.detach Arena.sampleG ⟨2, 0⟩ = .done Arena.sampleG () := by decide
 
+/-- A STALE id is not refused, in either position (`sampleC`: slot 1 reused, `2:0` stale, `2:1` live): as
+    `self` of `checked_append` the new occupant `2:1` receives the child, whose `parent` pointer is the
+    stale id; as the new sibling (`checked_insert_before`, example further up) the new occupant is
+    moved and the stale id is stored in the neighbour — the arena is no longer well-formed. -/
+example : Arena.eitherRemoved Arena.sampleC ⟨2, 0⟩ ⟨3, 0⟩ = .done Arena.sampleC false ∧
+    (match Arena.checkedAppend Arena.sampleC ⟨2, 0⟩ ⟨3, 0⟩ with
+     | .done a' (.ok ()) => !a'.wf && (a'.get ⟨3, 0⟩).map (·.parent) == some (some ⟨2, 0⟩) &&
+         (a'.get ⟨2, 1⟩).map (·.first) == some (some ⟨3, 0⟩)
+     | _ => false) = true := by decide
+
 end XotModel.Props
